@@ -64,6 +64,34 @@ def run_batch(job):
         h.register_stream_function(*PROBES["probe-none"], p_none)
         h.register_stream_function(*PROBES["probe-raise"], p_raise)
         probe_of = {v: k for k, v in PROBES.items()}
+        # history: system bytes the handler itself used before -- one transaction of its own that timed out (T3), one
+        # that was answered.  A peer is free to pick the same values for its primaries later on.
+        own = []
+        if bid % 2 == 1:
+            from .. import e5
+            for answered in (False, True):
+                fin = {"v": False}
+
+                def ayt(fin=fin):
+                    try:
+                        h.are_you_there()
+                    except Exception:  # noqa: BLE001
+                        pass
+                    fin["v"] = True
+
+                simrt.Thread(target=ayt, name="own_request").start()
+                s.settle()
+                mine = [f for f in ep.link.take_frames() if f.get("stype") == 0 and f["s"] == 1 and f["f"] == 1 and f["w"]]
+                if len(mine) != 1:
+                    raise Machinery(f"own S1F1 not seen: {mine}")
+                if answered:
+                    body2 = e5.encode(e5.L()) if role == "equipment" else e5.encode(e5.L(e5.A("mdln"), e5.A("rev")))
+                    ep.link.feed(hsmsrun.data_frame(1, 2, False, mine[0]["system"], body2))
+                okk, why = s.run_until(lambda: fin["v"], max_dt=h.settings.timeouts.t3 + 5)
+                if not okk:
+                    raise Machinery(f"own request did not return: {why}")
+                own.append(mine[0]["system"])
+            ep.link.take_frames()
         for (mid, sfn, fn, w, bodyk, body) in msgs:
             if h.communication_state.current.name != "COMMUNICATING":
                 raise Machinery("handler left COMMUNICATING during the C08 run")
@@ -76,6 +104,10 @@ def run_batch(job):
                 cls = "none"
             # system bytes: mostly distinct ordinary values, every 7th message a boundary value of the 32-bit range
             sysid = [0, 1, 0x7FFFFFFF, 0x80000000, 0xFFFFFFFF][mid // 7 % 5] if mid % 7 == 0 else 0x70000 + mid
+            reused = None
+            if own and mid % 5 in (1, 3):
+                reused = "timed-out" if mid % 5 == 1 else "answered"
+                sysid = own[0] if mid % 5 == 1 else own[1]
             frame = hsmsrun.data_frame(sfn, fn, w, sysid, body)
             ep.link.feed(frame)
             ok, why = s.run_until(lambda: False, max_dt=0.5)   # lets sender threads of side effects run
@@ -88,7 +120,7 @@ def run_batch(job):
                     # unrelated primary of the handler (e.g. S6F11 of a collection event): acknowledge it generically
                     pass
             out.append({"id": mid, "m": {"s": sfn, "f": fn, "w": w, "cls": cls, "body": "ok" if bodyk == "ok" else "bad"},
-                        "bodyk": bodyk, "echo": echo, "role": role})
+                        "bodyk": bodyk, "echo": echo, "role": role, "reused_system": reused})
 
     s = simrt.run(main, seed=seed, policy="fifo", max_vtime=1e7, wall_timeout=600)
     return {"bid": bid, "role": role, "outcome": s.outcome, "errors": [e[:2] for e in s.errors[:2]], "recs": out,
@@ -166,12 +198,14 @@ def run(ctx: Ctx):
         r_ = byid[i]
         m = r_["m"]
         ctx.violation({"check": "reply", "clause": v["clause"], "role": r_["role"], "cls": m["cls"], "w": m["w"],
-                       "bodyk": r_["bodyk"], "s": m["s"], "f": m["f"], "echo": r_["echo"],
+                       "bodyk": r_["bodyk"], "s": m["s"], "f": m["f"], "echo": r_["echo"], "reused_system": r_.get("reused_system"),
                        "what": f"{r_['role']}: inbound S{m['s']}F{m['f']} W={m['w']} ({m['cls']}, body {r_['bodyk']}) -> "
                                f"{v['clause']}: {[(e['s'], e['f']) for e in r_['echo']]}"})
     ctx.rule = ("inbound messages = every catalogued S/F x W x body class + uncatalogued S/F pairs (thorough: all) + probe callbacks, "
-                "shuffled into long sequences on host and equipment handlers; non-trivial = distinct (role,S,F,W,body) that "
+                "shuffled into long sequences on host and equipment handlers, system bytes incl. boundary values and values the handler "
+                "itself used before (a timed-out and an answered transaction of its own); non-trivial = distinct (role,S,F,W,body) that "
                 "produced an answer")
+    ctx.extra["inbound_with_reused_system_bytes"] = sum(1 for r_ in recs if r_.get("reused_system"))
     ctx.exhaustive = not ctx.quick
     ctx.assumptions += ["the handler's callback class per S/F is read from its public callback table",
                         "other outbound traffic (e.g. S6F11 of collection events) is ignored by this check"]
